@@ -4,6 +4,8 @@ import (
 	"go/ast"
 	"go/token"
 	"go/types"
+	"sort"
+	"strings"
 
 	"verif/checker/core"
 )
@@ -13,7 +15,7 @@ import (
 // marker only if IT found the pool still active. So flushCandidates' marker must be decided, besides the gatherer state,
 // by a sample of the pool predicate taken before the pool is emptied, in the emptying critical section: a flush that
 // finds the pool already inactive (a second SetLocalDescription, or pool size 0) emits no marker.
-func (x *c24ctx) r4Flush(flush *core.FuncInfo) {
+func (x *c24ctx) r4Flush(flush *core.FuncInfo, nilBody *core.Graph) {
 	c, r := x.c, x.c.R
 	const rule = "C24.R4"
 	g := c.P.GraphOf(flush)
@@ -96,6 +98,46 @@ func (x *c24ctx) r4Flush(flush *core.FuncInfo) {
 		})
 		if reach[em] {
 			ok = false
+		}
+	}
+	// the sample tests the SAME pool predicate as the callback's marker decision (same pool fields read): the two sides
+	// decide who owes the marker by complementary answers to one question
+	fieldsOf := func(inf *types.Info, e ast.Node) string {
+		set := map[string]bool{}
+		ast.Inspect(e, func(y ast.Node) bool {
+			if sel, isSel := y.(*ast.SelectorExpr); isSel {
+				if f := core.FieldOf(inf, sel); f == x.poolF || f == x.sizeF {
+					set[f.Name()] = true
+				}
+			}
+			return true
+		})
+		var names []string
+		for n := range set {
+			names = append(names, n)
+		}
+		sort.Strings(names)
+		return strings.Join(names, "+")
+	}
+	if nilBody != nil && len(samples) > 0 {
+		cbFields := ""
+		for _, n := range nilBody.Nodes {
+			as, isAs := n.Ast.(*ast.AssignStmt)
+			if !isAs || len(as.Rhs) != 1 || !x.poolReads(nilBody.Info, as.Rhs[0]) {
+				continue
+			}
+			if tv, has := nilBody.Info.Types[as.Rhs[0]]; has && types.Identical(tv.Type.Underlying(), types.Typ[types.Bool]) {
+				cbFields = fieldsOf(nilBody.Info, as.Rhs[0])
+			}
+		}
+		for v := range samples {
+			rhs, _ := g.UniqueDef(v)
+			if rhs == nil || cbFields == "" {
+				continue
+			}
+			fl := fieldsOf(info, rhs)
+			r.Check(fl == cbFields, rule, flush.Name()+"|pool-sample|same-predicate-as-callback", c.P.Pos(rhs.Pos()), "the flush samples the pool predicate the callback tests ("+cbFields+")",
+				"the flush's pool sample reads {"+fl+"} while the callback's marker decision reads {"+cbFields+"}: the two sides answer different questions (NewICEGatherer allocates a non-nil empty pool even for pool size 0), so for some configuration both - or neither - report the end-of-gathering marker")
 		}
 	}
 	r.Cells++
